@@ -107,7 +107,7 @@ def run_sequence(R, items, attempt=0):
                 before = len(events)
                 s.sendto(it["data"], ("127.0.0.1", port))
                 # wait for this datagram's event (bounded); invalid ones may be dropped silently
-                rounds = 120 if it["cls"] == "valid" else 6
+                rounds = (120 if attempt == 0 else 500) if it["cls"] == "valid" else 6
                 for _ in range(rounds):
                     loop.run_until_complete(asyncio.sleep(pause))
                     if len(events) > before:
